@@ -9,6 +9,42 @@ VALID = ['SessionExpiration = "30m0s"\nMaxChannels = %d\n[IRC]\n[[IRC.Operators]
 INVALID = 'this is = not [ valid toml'
 
 
+def canon_cfg(t):
+    """GET /config renders nil and empty strings / lists / tables differently (`X = ""`, `Operators = []`, `[Banned]`
+    vs nothing): the same configuration.  Parse the TOML and drop empty values."""
+    import tomllib
+
+    def norm(v):
+        if isinstance(v, dict):
+            d = {k: norm(x) for k, x in v.items()}
+            return {k: x for k, x in d.items() if x not in ("", [], {}, None)}
+        if isinstance(v, list):
+            return [norm(x) for x in v]
+        return v
+    try:
+        d = norm(tomllib.loads(t))
+    except Exception:
+        return t
+    out = []
+
+    def emit(pfx, v):
+        if isinstance(v, dict):
+            for k in sorted(v):
+                emit(pfx + [k], v[k])
+        else:
+            out.append("%s = %r" % (".".join(pfx), v))
+    emit([], d)
+    return "\n".join(out)
+
+
+def diffline(a, b):
+    la, lb = a.splitlines(), b.splitlines()
+    for x, y in zip(la, lb):
+        if x != y:
+            return x, y
+    return (la[len(lb):] or [""])[0], (lb[len(la):] or [""])[0]
+
+
 def scenario(rng, kinds):
     """kinds: sequence over {valid, invalid, stale, future, nohdr}"""
     ops = ["start", "postconfig %s 0 %s" % (PW, hx('PostMessageCooloff = "0s"\n')), "create a", "post a ok 1 " + hx("NICK oper"), "post a ok 2 " + hx("USER u 0 * :r")]
@@ -108,6 +144,36 @@ def check(run):
                           {"kind": "api", "ops": oops, "before": before[-200:], "after": after[-200:]}, True)
         elif "webchat.example.com" not in before:
             bad = bad or ("content", "posted WhitelistedOrigins not shown by GET /config", oops)
+        elif canon_cfg(before) != canon_cfg(after):
+            bad = bad or ("restore-differs", "GET /config differs before and after snapshot+restore at the same revision: %r / %r" % (diffline(canon_cfg(before), canon_cfg(after))), oops)
+    # every configuration value must survive snapshot + restore, zero values and empty tables included; and a ban
+    # set by GLINE belongs to the configuration in force: a later accepted update without bans removes it
+    cfgA = 'SessionExpiration = "0s"\nPostMessageCooloff = "0s"\nMaxSessions = 0\n[IRC]\n[[IRC.Operators]]\nName = "op"\nPassword = "secret"\n'
+    cfgB = 'SessionExpiration = "10m0s"\nPostMessageCooloff = "0s"\n[IRC]\n[[IRC.Operators]]\nName = "op"\nPassword = "secret"\n'
+    gops = ["start", "postconfig %s 0 %s" % (PW, hx(cfgA)),
+            "create o", "create v", "post v ok 1 " + hx("NICK victim"), "post v ok 2 " + hx("USER u 0 * :r"), "post o ok 1 " + hx("NICK oper"), "post o ok 2 " + hx("USER u 0 * :r"),
+            "post o ok 3 " + hx("OPER op secret"), "getconfig " + PW, "snapshot 7200", "restart", "getconfig " + PW,
+            "postconfig %s 1 %s" % (PW, hx(cfgA)),                      # the configuration in force now comes from a Config entry, not from a restore
+            "post o ok 4 " + hx("GLINE victim :spam"), "getconfig " + PW,
+            "postconfig %s 2 %s" % (PW, hx(cfgB)), "getconfig " + PW,
+            "restart", "getconfig " + PW]
+    gl, err = api_run.run_ops(exe, gops, tag="c16g")
+    evals += len(gops)
+    if err or len(gl) != len(gops):
+        bad = bad or ("harness", err or "short output", gops)
+    else:
+        body = lambda i: canon_cfg(bytes.fromhex(kv(gl[i]).get("body", "")).decode("utf-8", "replace"))
+        c1, c2, c3, c4, c5 = body(9), body(12), body(15), body(17), body(19)
+        if c1 != c2:
+            bad = bad or ("restore-differs", "GET /config differs before and after snapshot+restore at the same revision: %r / %r" % (diffline(c1, c2)), gops[:13])
+        elif "spam" not in c3:
+            bad = bad or ("gline", "the ban set by GLINE is not part of the configuration (GET /config)", gops[:16])
+        elif kv(gl[16]).get("status") != "200":
+            bad = bad or ("rev-after-gline", "a config update naming the current revision was refused after a GLINE: %s" % gl[16], gops[:17])
+        elif "spam" in c4:
+            bad = bad or ("stale-ban", "an accepted configuration without bans took effect, but a ban of the previous configuration is still in force", gops[:18])
+        elif c4 != c5:
+            bad = bad or ("restore-differs", "GET /config differs before and after a restart at the same revision: %r / %r" % (diffline(c4, c5)), gops)
     if decisions:
         ll, lerr = api_run.lean_decisions([d[0] for d in decisions])
         mism = None
